@@ -57,11 +57,16 @@ func (conn *Conn) close() {
 		op.ConnClosed(conn)
 	}
 
-	/* call FidDestroy for all remaining fids */
-	if op, ok := (conn.Srv.ops).(SrvFidOps); ok {
-		for _, fid := range conn.fidpool {
-			op.FidDestroy(fid)
-		}
+	/* drop the connection's reference to all remaining fids: FidDestroy is
+	   called for each, now or when the last request still using it is done */
+	conn.Lock()
+	fids := make([]*SrvFid, 0, len(conn.fidpool))
+	for _, fid := range conn.fidpool {
+		fids = append(fids, fid)
+	}
+	conn.Unlock()
+	for _, fid := range fids {
+		fid.DecRef()
 	}
 }
 
